@@ -163,6 +163,21 @@ class FakeProtocol : public ProtocolHandler {
   }
   bool hasSignal() const override { return signal; }
   bool isAnswering() const override { return answering; }
+  // registrations of the `answer` command: "src,dst,pb,sb,id-hex,answer-hex" per call (C15 command part)
+  vector<string> answers;
+  bool acceptAnswer = true;
+  bool setAnswer(symbol_t srcAddress, symbol_t dstAddress, symbol_t pb, symbol_t sb, const symbol_t* id,
+      size_t idLen, const SlaveSymbolString& answer) override {
+    // documented contract of setAnswer: "idLen the length of the further ID bytes (maximum 4)", false for a too long id
+    if (idLen > 4 || (!id && idLen > 0)) return false;
+    char b[64];
+    snprintf(b, sizeof(b), "%02x,%02x,%02x,%02x,", srcAddress, dstAddress, pb, sb);
+    string rec = b;
+    for (size_t i = 0; i < idLen; i++) { snprintf(b, sizeof(b), "%02x", id[i]); rec += b; }
+    rec += "," + hexOf(answer);
+    answers.push_back(rec);
+    return acceptAnswer;
+  }
   void injectMessage(const MasterSymbolString&, const SlaveSymbolString&) override {}
   void run() override {}
 };
